@@ -14,7 +14,7 @@ import os
 import z3
 from . import sorts as S
 from .sorts import (V, VNum, VBool, VStr, VSet, VSeq, VOpt, VDict, VTup, VRec, VObj, VFunc, VNone, NONE,
-                    VPyList, VTBDict)
+                    VPyList, VTBDict, VBDict)
 
 REPO = os.environ.get("VERIF_REPO", "/repo")
 SRC = os.path.join(REPO, "src", "votekit")
@@ -294,6 +294,8 @@ class Exec:
             return v.keys != S.EMPTY_SET
         if isinstance(v, VTBDict):
             return v.has
+        if isinstance(v, VBDict):
+            return z3.Length(v.keys) > 0
         if isinstance(v, VTup):
             return z3.BoolVal(len(v.items) > 0)
         if isinstance(v, VPyList):
@@ -683,7 +685,16 @@ class Exec:
             return z3.Or(*[self.eq(item, x) for x in container.items]) if container.items else z3.BoolVal(False)
         if isinstance(container, VOpt):
             return self.contains(container.val, item, st)
+        if isinstance(container, VBDict) and isinstance(item, VRec) and item.cls == "Ballot":
+            return self.bfind(st, container, item).term >= 0
         raise OutOfReach(f"membership in {container!r}")
+
+    def bfind(self, st, d, key):
+        """index of the first stored key k with k.__eq__(probe) (stored key is the left operand, S-DICT), -1 if none;
+        `beq` is the specification of Ballot.__eq__ (proved equal to the real method's contract)"""
+        from .calls import apply_spec
+        sp = self.ctx.registry.specs["bfind"]
+        return apply_spec(self, sp, [VSeq(d.keys, S.Ballot), VNum(z3.Length(d.keys), "int"), key], st)
 
     def e_BinOp(self, n, st):
         a = self.eval(n.left, st)
@@ -729,6 +740,9 @@ class Exec:
             return VSeq(z3.Concat(sa.term, sb.term), sa.elem, sa.kind)
         if isinstance(a, VSeq) and isinstance(b, VNum) and isinstance(op, ast.Mult):
             return self.replicate(st, a, b)
+        if isinstance(a, VPyList) and len(a.items) == 1 and isinstance(b, VNum) and isinstance(op, ast.Mult):
+            sq = self.as_seq(a)
+            return self.replicate(st, VSeq(sq.term, sq.elem, "list"), b)
         if isinstance(a, VSet) and isinstance(b, VSet) and isinstance(op, (ast.BitOr, ast.BitAnd, ast.Sub)):
             if isinstance(op, ast.BitOr):
                 return VSet(S.lam(lambda c: z3.Or(a.term[c], b.term[c]), a.term, b.term))
@@ -888,6 +902,10 @@ class Exec:
                 self.need(st, False, "IndexError", node, "tuple index")
                 raise Raise()
             return base.items[k]
+        if isinstance(base, VBDict) and isinstance(idx, VRec):
+            f = self.bfind(st, base, idx).term
+            self.need(st, f >= 0, "KeyError", node, "dict key (Ballot)")
+            return VNum(base.vals[f], "real")
         if isinstance(base, VDict) and isinstance(idx, VStr):
             self.need(st, base.keys[idx.term], "KeyError", node, "dict key")
             return VNum(base.vals[idx.term], "real" if base.val is S.Real else ("int" if base.val is S.Int else "float"))
@@ -1194,6 +1212,19 @@ class Exec:
                                                    z3.Extract(t, z3.IntVal(0), j + 1) == z3.Concat(z3.Extract(cur.term, z3.IntVal(0), j), z3.Unit(x)),
                                                    t[j] == x)))
             return VSeq(t, cur.elem, cur.kind)
+        if isinstance(cur, VBDict):
+            idx = self.eval(target.slice, st)
+            if isinstance(idx, VRec) and isinstance(v, VNum):
+                from .calls import apply_spec
+                f = self.bfind(st, cur, idx).term
+                x = VNum(to_real(v), "real")
+                upd = apply_spec(self, self.ctx.registry.specs["supd"], [VSeq(cur.vals, S.Real), VNum(f, "int"), x], st).term
+                app_k, app_v = z3.Concat(cur.keys, z3.Unit(idx.term)), z3.Concat(cur.vals, z3.Unit(x.term))
+                if self.known(st, f >= 0):
+                    return VBDict(cur.keys, upd)
+                if self.known(st, f < 0):
+                    return VBDict(app_k, app_v)
+                return VBDict(z3.If(f >= 0, cur.keys, app_k), z3.If(f >= 0, upd, app_v))
         if isinstance(cur, VDict):
             idx = self.eval(target.slice, st)
             if isinstance(idx, VStr) and isinstance(v, VNum):
